@@ -306,7 +306,10 @@ def run_case(case):
     from pdfminer.psexceptions import PSException
 
     _patch_getobj()
-    if case["seed"].startswith("samples/"):
+    if case["seed"] == "raw":  # whole file bytes from the coverage-guided campaign
+        data = case["data"]
+        base = [20_000, 20_000, 20_000]
+    elif case["seed"].startswith("samples/"):
         orig = open(os.path.join(REPO, case["seed"]), "rb").read()
         f = case["fault"]
         if f["t"] == "truncate":
@@ -338,7 +341,7 @@ def run_case(case):
         else:
             viol.append((bucket(exc), "%s raised %s: %s" % (name, type(exc).__name__, str(exc)[:200])))
     f = case["fault"]
-    if f["t"] in ("truncate", "flipbyte"):
+    if f["t"] in ("truncate", "flipbyte", "raw"):
         nt = bool(fetched)
     else:
         nt = f["obj"] in fetched
@@ -362,6 +365,8 @@ def describe(case):
         return "seed %s stream %d payload %s %s" % (case["seed"], f["obj"], f["how"], f.get("i", ""))
     if f["t"] == "lzwcode":
         return "seed %s LZW stream %d code #%d <- %d" % (case["seed"], f["obj"], f["pos"], f["val"])
+    if f["t"] == "raw":
+        return "fuzzed file of %d bytes: %r..." % (len(case["data"]), case["data"][:60])
     return "seed %s %s at byte %d" % (case["seed"], f["t"], f["at"])
 
 
@@ -397,10 +402,69 @@ def plan(tier):
     if tier == "quick":
         return [{"kind": "sample", "part": i, "parts": 16, "n": 650, "total": total} for i in range(16)]
     chunk = 2000
-    return [{"kind": "range", "lo": lo, "hi": min(total, lo + chunk)} for lo in range(0, total, chunk)]
+    return [{"kind": "range", "lo": lo, "hi": min(total, lo + chunk)} for lo in range(0, total, chunk)] + \
+           [{"kind": "atheris", "runs": 12000} for _ in range(4)]
+
+
+def run_atheris(spec, ctx):
+    """Thorough tier: libFuzzer over whole files, corpus = the seed documents and the small repository samples."""
+    import glob
+    import re
+    import shutil
+    import subprocess
+    import sys
+    import tempfile
+
+    res = ShardResult()
+    here = os.path.dirname(os.path.abspath(__file__))
+    tmp = tempfile.mkdtemp(prefix="c13fuzz")
+    try:
+        art, corp = os.path.join(tmp, "art"), os.path.join(tmp, "corpus")
+        os.mkdir(art)
+        os.mkdir(corp)
+        for f in SD.ALL:
+            s = f()
+            with open(os.path.join(corp, s["name"] + ".pdf"), "wb") as fh:
+                fh.write(SD.write(s))
+        for name in SAMPLE_FILES[:3]:
+            shutil.copy(os.path.join(REPO, name), corp)
+        env = dict(os.environ)
+        env["PYTHONHASHSEED"] = "0"
+        env["VERIF_KNOWN"] = ",".join(sorted(runner.ACTIVE_KNOWN))
+        seed = (ctx.hseed("atheris") % (2 ** 31 - 1)) + 1
+        r = subprocess.run([sys.executable, os.path.join(here, "c13_fuzz.py"), art, "-runs=%d" % spec["runs"],
+                            "-seed=%d" % seed, "-max_len=8000", "-rss_limit_mb=4096", corp], capture_output=True, env=env)
+        out = (r.stderr + r.stdout).decode("latin-1")
+        m = re.search(r"Done (\d+) runs", out)
+        crashes = glob.glob(os.path.join(art, "crash-*"))
+        if crashes:
+            data = open(crashes[0], "rb").read()
+            case = {"seed": "raw", "data": data, "fault": {"t": "raw"}}
+            o = run_case(case)
+            res.evaluations += 1
+            if o.fail:
+                res.failures.append((case, "atheris campaign: " + o.fail))
+            else:
+                res.harness_errors.append("atheris crash does not reproduce through run_case (%d bytes)\n%s" % (len(data), out[-1500:]))
+        elif r.returncode != 0 or not m:
+            if "No module named 'atheris'" in out:
+                res.notes.append("atheris not installed: campaign skipped")
+            else:
+                res.harness_errors.append("atheris campaign failed (rc=%d): %s" % (r.returncode, out[-1500:]))
+        if m:
+            res.evaluations += int(m.group(1))
+            res.extra["atheris_runs"] = int(m.group(1))
+            res.classes["atheris-campaign"] += 1
+            cov = re.findall(r"cov: (\d+)", out)
+            res.notes.append("atheris seed=%d runs=%s final cov=%s" % (seed, m.group(1), cov[-1] if cov else "?"))
+    finally:
+        shutil.rmtree(tmp, ignore_errors=True)
+    return res
 
 
 def run_shard(spec, ctx):
+    if spec["kind"] == "atheris":
+        return run_atheris(spec, ctx)
     cases = all_cases()
     if spec["kind"] == "sample":
         # quick tier: the reference-cycle classes and all payload corruptions are always enumerated completely (they are
